@@ -82,7 +82,7 @@ func TestWorker(t *testing.T) {
 	// this check leaves the scheduling points at atomic operations off (set here, not in
 	// a package init: the C13 worker imports this package and wants them on)
 	simsched.AtomicYields = false
-	out.Watch(120 * time.Second)
+	out.Watch(300 * time.Second)
 	mk := func(i int) (*Case, *choice.Source, *choice.Source) {
 		c := &Case{Property: "C20", Engine: "simsched"}
 		return c, choice.New(job.Seed, fmt.Sprint("c20-work-", i)), choice.New(job.Seed, fmt.Sprint("c20-sched-", i))
